@@ -3,9 +3,13 @@ import GoguVerif.Go.Val
 import GoguVerif.Go.Run
 import GoguVerif.Kinds.QueueStack
 import GoguVerif.Kinds.Heap
-import GoguVerif.Kinds.Trees
+import GoguVerif.Kinds.Bst
+import GoguVerif.Kinds.BTree
+import GoguVerif.Kinds.Trie
+import GoguVerif.Kinds.Lru
 import GoguVerif.Kinds.Lists
 import GoguVerif.Kinds.Cache
 import GoguVerif.Kinds.Funcs
 import GoguVerif.Theorems.C01
+import GoguVerif.Theorems.C02
 import GoguVerif.Theorems.C05
